@@ -84,6 +84,27 @@ func Bits(k string) int {
 	return 64
 }
 
+// PoolType is a named Go type (usually with methods) that reflect cannot
+// construct; packages register theirs so that descriptions can refer to them
+// as kind "pool:<Name>". Under describes how a Val fills it (a struct or
+// string description with the same shape as the type's underlying type).
+type PoolType struct {
+	Name  string
+	Type  reflect.Type
+	Under *Desc
+}
+
+var pool = map[string]PoolType{}
+
+// RegisterPool makes a pool type available (call from init or test setup).
+func RegisterPool(p PoolType) { pool[p.Name] = p }
+
+// Pool looks up a registered pool type by kind name ("pool:Name").
+func Pool(kind string) (PoolType, bool) {
+	p, ok := pool[strings.TrimPrefix(kind, "pool:")]
+	return p, ok && strings.HasPrefix(kind, "pool:")
+}
+
 var (
 	buildMu    sync.Mutex
 	buildCache = map[string]reflect.Type{}
@@ -152,6 +173,9 @@ func build(d *Desc) (reflect.Type, error) {
 	}
 	if t, ok := scalarTypes[d.K]; ok {
 		return t, nil
+	}
+	if p, ok := Pool(d.K); ok {
+		return p.Type, nil
 	}
 	switch d.K {
 	case "bytearr":
